@@ -396,6 +396,9 @@ func (c *ctx) cond(e ast.Expr) string {
 			return "(.and " + c.cond(x.X) + " " + c.cond(x.Y) + ")"
 		}
 		if r, ok := relOf[x.Op]; ok {
+			if x.Op == token.EQL && isNil(x.Y) && c.isSelf(x.X) {
+				return ".isNil"
+			}
 			if lit, ok := unparen(x.Y).(*ast.BasicLit); ok && lit.Kind == token.STRING && lit.Value == `""` && x.Op == token.EQL {
 				if id, ok := unparen(x.X).(*ast.Ident); ok && c.alias[id.Name] == "trimmed" {
 					return ".isBlank"
@@ -622,10 +625,11 @@ func (b branch) lean() string {
 // clause translates the statements of one case clause. `after` is the function the value goes
 // on to when the clause does not end in a return.
 func (c *ctx) clause(stmts []ast.Stmt, after string) (guards []string, res string, aft string) {
-	raw := func() ([]string, string, string) {
-		return nil, "(.raw " + leanStr(c.f.text(stmts)) + ")", ""
+	i := 0
+	raw := func() ([]string, string, string) { // the guards translated so far are kept; the rest is text
+		return guards, "(.raw " + leanStr(c.f.text(stmts[i:])) + ")", ""
 	}
-	for i := 0; i < len(stmts); i++ {
+	for ; i < len(stmts); i++ {
 		last := i == len(stmts)-1
 		switch s := stmts[i].(type) {
 		case *ast.ReturnStmt:
